@@ -110,7 +110,7 @@ _FIELDS = {
 }
 
 VALUES = [0, 1, True, False, None, "0", "1", "", "True", "None", "(1, 2)", AE.A, AE.B, (1, 2), (2, 1), ("1", 2), (1, "2"), (),
-          frozenset([1, 2]), frozenset([2, 1]), frozenset([8, 16, 0]), frozenset([16, 8, 0]), frozenset(), frozenset(["a", "b", "c"]),
+          (1, True), (1, 1), (True, 1), (0, False), (0, 0), frozenset([1, 2]), frozenset([2, 1]), frozenset([8, 16, 0]), frozenset([16, 8, 0]), frozenset(), frozenset(["a", "b", "c"]),
           frozenset(["c", "b", "a"])]
 
 
@@ -141,7 +141,8 @@ def make_universes(order: int):
         ]
 
     US = Universe("c01-struct", specs((0, 1)))
-    UV = Universe("c01-values", specs(tuple(VALUES)))
+    # odd declaration orders also enumerate the value alphabet backwards: a content_id must not depend on what was built before
+    UV = Universe("c01-values", specs(tuple(reversed(VALUES)) if order % 2 else tuple(VALUES)))
     US.one = Universe("c01-struct-1", specs((0,)))
     return g, US, UV
 
@@ -152,12 +153,18 @@ def khash(text: str) -> str:
     return hashlib.blake2b(text.encode(), digest_size=10).hexdigest()
 
 
-def canon(x) -> str:
-    """Process-independent text of a structural key (frozensets sorted by their canonical text)."""
+def canon(x, shallow=False, inside=False) -> str:
+    """Process-independent text of a structural key (frozensets sorted by their canonical text).
+    shallow=True blurs the element types of numbers *inside* tuple / frozenset values (A3: whether (1, True) and (1, 1)
+    are 'equal values of equal types' is left open; the top-level type always counts)."""
     if isinstance(x, tuple):
-        return "(" + ",".join(canon(v) for v in x) + ")"
+        if shallow and len(x) == 2 and x[0] in ("tuple", "frozenset") and isinstance(x[1], (tuple, frozenset)):
+            return "(" + x[0] + "," + canon(x[1], True, True) + ")"
+        if shallow and inside and len(x) == 2 and x[0] in ("int", "bool", "float") and isinstance(x[1], (int, float)):
+            return f"(num,{int(x[1]) if x[1] == int(x[1]) else x[1]!r})"
+        return "(" + ",".join(canon(v, shallow, inside) for v in x) + ")"
     if isinstance(x, frozenset):
-        return "{" + ",".join(sorted(canon(v) for v in x)) + "}"
+        return "{" + ",".join(sorted(canon(v, shallow, inside) for v in x)) + "}"
     if isinstance(x, enum.Enum):
         return f"<{type(x).__name__}.{x.name}>"
     return repr(x)
@@ -199,7 +206,18 @@ def cases(cfg, g, US, UV):
             yield "struct", d
     for d in US.one.trees(cfg["n"]):  # the largest size with a single property value
         yield "struct", d
-    for n in range(1, cfg["nv"] + 1):
+    # the full value alphabet: trees of <= 2 nodes are built by EVERY part of a configuration, each in its own order
+    # (rotated by the part number, backwards for odd parts), so that a content_id that depends on what was built
+    # earlier in the process shows up as a split; larger trees are shared out between the parts as usual
+    small = [d for n in range(1, min(2, cfg["nv"]) + 1) for d in UV.trees(n)]
+    k, of = cfg.get("k", 0), cfg.get("of", 1)
+    rot = (len(small) * k) // max(of, 1)
+    hist = small[rot:] + small[:rot]
+    if k % 2:
+        hist.reverse()
+    for d in hist:
+        yield "value-all", d
+    for n in range(3, cfg["nv"] + 1):
         for d in UV.trees(n):
             yield "value", d
     strs2 = attack_strings(g, min(2, cfg["ntok"]))
@@ -231,6 +249,7 @@ def run_shard(cfg):
         C("AV", g["AV"], [F("v", PROP)]), C("AF", g["AF"], []),
     ])
     table: dict[str, str] = {}
+    shallow_of: dict[str, str] = {}
     held = []
     origin_all_a = lambda p, d: zoo.O_A01  # noqa: E731
     origin_root_b = lambda p, d: zoo.O_B01 if p == () else None  # noqa: E731
@@ -241,7 +260,7 @@ def run_shard(cfg):
         rec.rank = idx
         U = _universe_for(d, US, UV, AP_U)
         keep = kind == "struct" and U.size(d) <= cfg.get("pairs_n", 2)
-        if idx % cfg["of"] != cfg["k"] and not keep:
+        if idx % cfg["of"] != cfg["k"] and not keep and kind != "value-all":
             continue
         rec.outcome(kind)
         NODE_REGISTRY.clear()
@@ -249,7 +268,8 @@ def run_shard(cfg):
         rec.count("transitions")
         rec.count("traces")
         rec.count("evaluations")
-        ks = khash(canon(U.key(d)))
+        key_ = U.key(d)
+        ks = khash(canon(key_))
         cid = node.content_id
         fd = freeze_desc(U, d)
         if ks in table:
@@ -258,6 +278,9 @@ def run_shard(cfg):
                               expected=table[ks], observed=cid)
         else:
             table[ks] = cid
+            sh = khash(canon(key_, shallow=True))
+            if sh != ks:
+                shallow_of[ks] = sh
             shape = _shape(U, d)
             shapes[shape] = shapes.get(shape, 0) + 1
         rec.sample({"kind": kind, "tree": fd})
@@ -297,7 +320,7 @@ def run_shard(cfg):
                 rec.violation("C01|is_equal|pair", {"a": held[i][3], "b": held[j][3]}, f"is_equal gave {not exp}; structural equality is {exp}")
     rec.count("is_equal_pairs", len([i for i in range(len(keyed)) if i % cfg["of"] == cfg["k"]]) * len(keyed))
     path = os.path.join(cfg["scratch"], "table.json")
-    dump(path, {"table": table, "shapes": {repr(k): v for k, v in shapes.items()}})
+    dump(path, {"table": table, "shallow": shallow_of, "shapes": {repr(k): v for k, v in shapes.items()}})
     rec.extra["table_path"] = path
     rec.extra["nontrivial_local"] = sum(v for v in shapes.values() if v > 1)
     rec.bound = {"max_nodes_structural": cfg["n"], "max_nodes_full_alphabet": cfg["nv"], "max_tokens": cfg["ntok"]}
@@ -315,9 +338,12 @@ def finalize(cfgs, results, tier, seed):
     by_cid: dict[str, tuple] = {}
     shapes: dict = {}
     splits, colls = [], []
+    shallow: dict[str, str] = {}
+    unjudged = 0
     for i, r in enumerate(results):
         with open(r["extra"]["table_path"]) as f:
             data = json.load(f)
+        shallow.update(data.get("shallow", {}))
         if cfgs[i]["env"]["PYTHONHASHSEED"] == cfgs[0]["env"]["PYTHONHASHSEED"] and cfgs[i]["order"] == cfgs[0]["order"]:
             for k, v in data["shapes"].items():
                 shapes[k] = shapes.get(k, 0) + v
@@ -329,7 +355,10 @@ def finalize(cfgs, results, tier, seed):
             if cid not in by_cid:
                 by_cid[cid] = (k, i)
             elif by_cid[cid][0] != k:
-                colls.append((cid, by_cid[cid], (k, i)))
+                if shallow.get(k, k) == shallow.get(by_cid[cid][0], by_cid[cid][0]):
+                    unjudged += 1  # differ only in the types of numbers nested inside a container value (A3)
+                else:
+                    colls.append((cid, by_cid[cid], (k, i)))
     viols = []
     if splits or colls:
         want = {k for k, _, _ in splits[:50]} | {x[0] for _, x, y in colls[:50]} | {y[0] for _, x, y in colls[:50]}
@@ -359,7 +388,7 @@ def finalize(cfgs, results, tier, seed):
         "counters": {"states": len(by_key), "nontrivial": sum(v for v in shapes.values() if v > 1), "content_id_groups": len(by_cid)},
         "outcomes": {"split": len(splits), "collision": len(colls), "agree": len(by_key) - len(splits)},
         "violations": list(best.values()),
-        "extra": {"split_keys": len(splits), "collision_groups": len(colls), "workers_joined": len(results)},
+        "extra": {"split_keys": len(splits), "collision_groups": len(colls), "workers_joined": len(results), "a3_unjudged_collisions": unjudged},
     }
 
 
@@ -379,7 +408,8 @@ def find_witnesses(cfg, want: set):
 
 
 def _cfgid(cfg):
-    return {"hashseed": cfg["env"]["PYTHONHASHSEED"], "order": cfg["order"]}
+    return {"hashseed": cfg["env"]["PYTHONHASHSEED"], "order": cfg["order"], "k": cfg.get("k", 0), "of": cfg.get("of", 1),
+            "n": cfg.get("n", 4), "nv": cfg.get("nv", 2), "ntok": cfg.get("ntok", 2)}
 
 
 def _value_kind(d):
@@ -388,19 +418,34 @@ def _value_kind(d):
 
 
 # ---- replay: recompute content ids of the two descriptors in fresh processes of the recorded configurations ------
-def _cid_in_config(d, cfgid):
+def _cid_in_config(d, cfgid, with_history=False):
+    """content_id and key of descriptor d in a fresh process of the given configuration; with_history first builds, in
+    that configuration's own order, every 'value-all' tree that precedes d (the history the worker had seen)."""
     code = (
         "import sys, json; from mc.checks import c01; from mc.core import detuple;"
-        "g, US, UV = c01.make_universes(int(sys.argv[2]));"
+        "cfg = json.loads(sys.argv[2]); g, US, UV = c01.make_universes(int(cfg['order']));"
         "d = c01.revive(detuple(json.loads(sys.argv[1])));"
-        "U = c01.any_universe(g, UV, d); print(U.build(d).content_id); print(c01.canon(U.key(d)))"
+        "U = c01.any_universe(g, UV, d);"
+        "c01.build_history(cfg, g, US, UV, d) if cfg.get('with_history') else None;"
+        "print(U.build(d).content_id); print(c01.canon(U.key(d)))"
     )
     env = dict(os.environ, PYTHONHASHSEED=str(cfgid["hashseed"]), PYTHONPATH=ROOT, PYTHONDONTWRITEBYTECODE="1")
-    r = subprocess.run([sys.executable, "-c", code, json.dumps(d), str(cfgid["order"])], env=env, cwd=ROOT, capture_output=True, text=True)
+    r = subprocess.run([sys.executable, "-c", code, json.dumps(d), json.dumps(dict(cfgid, with_history=with_history))], env=env, cwd=ROOT, capture_output=True, text=True)
     if r.returncode:
         raise RuntimeError(r.stderr[-2000:])
     cid, key = r.stdout.strip().split("\n")
     return cid, key
+
+
+def build_history(cfg, g, US, UV, target):
+    keep = []
+    for kind, d in cases(cfg, g, US, UV):
+        if kind != "value-all":
+            continue
+        if d == target:
+            break
+        keep.append(UV.build(d))
+    return keep
 
 
 def any_universe(g, UV, d):
@@ -469,6 +514,10 @@ def replay(case, cfg):
     cb = case.get("cfg_b") or ca
     cid_a, key_a = _cid_in_config(fa, ca)
     cid_b, key_b = _cid_in_config(fb, cb)
+    if key_a == key_b and cid_a == cid_b and "cfg_b" in case:
+        # not configuration-dependent in isolation: replay each worker's own history before the witness
+        cid_a, _ = _cid_in_config(fa, ca, with_history=True)
+        cid_b, _ = _cid_in_config(fb, cb, with_history=True)
     if key_a == key_b and cid_a != cid_b:
         kind = _value_kind(a)
         rec.violation(f"C01|split|across-configurations|{kind}", case, "split reproduced")
